@@ -238,24 +238,30 @@ def lexMacroComment (cfg : Cfg) : Prog Unit := do
   emit .COMMENT .MacroComment
 
 /-! ## `lex_numeric_literal` -/
+/-- `x`/`X` -/
+def isXChar (o : Option Char) : Bool := o == some 'x' || o == some 'X'
+
+/-- the decimal / hex arbitration of `lex_numeric_literal`: (result, "a trailing `x` is expected") -/
+def numericChoice (view : List Char) (seenDot : Bool) : Option (NumRes × Bool) :=
+  let hexR := if seenDot then none else tryParseHexInteger view
+  let decR := tryParseDecimal view (!seenDot) true
+  match decR, hexR with
+  | some d, some h =>
+    if d.len > h.len then some (d, false)
+    else if h.len > d.len then some (h, true)
+    else if isXChar view[h.len]? then some (h, true) else some (d, false)
+  | some d, none => some (d, false)
+  | none, some h => some (h, true)
+  | none, none =>
+    let len := (view.takeWhile isAsciiDigit).length
+    if len = 0 then none
+    else some (⟨.FloatLiteral, .float 0, len, some .InvalidNumericLiteral⟩, false)
+
 def lexNumericLiteral (cfg : Cfg) (seenDot : Bool) : Prog Unit := do
   dbg cfg (do pure (optAny (← peek) fun c => isAsciiDigit c || c == '.')) "lex_numeric_literal: digit or dot"
   let view ← rest
-  let hexR := if seenDot then none else tryParseHexInteger view
-  let decR := tryParseDecimal view (!seenDot) true
-  let isX (o : Option Char) : Bool := o == some 'x' || o == some 'X'
-  let choice : Option (NumRes × Bool) :=
-    match decR, hexR with
-    | some d, some h =>
-      if d.len > h.len then some (d, false)
-      else if h.len > d.len then some (h, true)
-      else if isX view[h.len]? then some (h, true) else some (d, false)
-    | some d, none => some (d, false)
-    | none, some h => some (h, true)
-    | none, none =>
-      let len := (view.takeWhile isAsciiDigit).length
-      if len = 0 then none
-      else some (⟨.FloatLiteral, .float 0, len, some .InvalidNumericLiteral⟩, false)
+  let isX := isXChar
+  let choice := numericChoice view seenDot
   match choice with
   | none => abort "unreachable: lex_numeric_literal"
   | some (res, checkX) =>
